@@ -34,6 +34,8 @@ type r2State struct {
 	// waiter functions found (entry name -> number of getWaitCh sites)
 	waiters   map[string]int
 	getWaitCh map[string]bool
+	// functions whose error a library caller compares with context.Canceled (R17)
+	cmpCanceled map[*types.Func]string
 }
 
 func (s *r2State) note(rule, construct string, pos token.Pos, bad bool, okDetail, badDetail string, p *core.Path) {
@@ -359,6 +361,41 @@ func (s *r2State) waiterPath(e core.Entry, p *core.Path) {
 						checkWait(i, ev, w)
 					}
 				}
+			}
+		}
+	}
+	// a waiter that returns a value with a nil error decided that in its last subscribing section: it does
+	// not enter the lock again before returning (a value re-read later was never checked against the
+	// wait condition)
+	if p.End == core.EndReturn && len(p.Events) > 0 && e.Decl != nil {
+		last := p.Events[len(p.Events)-1]
+		sig, _ := e.Decl.Obj.Type().(*types.Signature)
+		if last.Kind == core.KReturn && last.Frame.Parent == nil && sig != nil && sig.Results().Len() >= 2 && len(last.Results) == sig.Results().Len() &&
+			isErrorType(sig.Results().At(sig.Results().Len()-1).Type()) && isNilExpr(last.Results[len(last.Results)-1], last.Frame) {
+			var sub *r2Section
+			for gi, sc := range getSec {
+				if sc != nil && (sub == nil || sc.acq > sub.acq) && gi >= 0 {
+					sub = sc
+				}
+			}
+			if sub != nil {
+				var first, later *r2Section
+				for _, sc := range sections {
+					if sc.lock == sub.lock && sc.acq > windowStart {
+						if first == nil {
+							first = sc
+						} else {
+							later = sc
+						}
+					}
+				}
+				why := ""
+				if later != nil {
+					why = sprintf("between its last wait and its successful return the function enters the lock at %s and again at %s: what it returns can be a value read in the second section, which was never checked against the wait condition (or the check was made on a value that is no longer current)",
+						c.Prog.Pos(p.Events[first.acq].Pos), c.Prog.Pos(p.Events[later.acq].Pos))
+				}
+				s.note("R2a", e.Name+"/success-decided-in-one-section", e.Decl.Decl.Pos(), later != nil,
+					"between its last wait and a successful return a waiter enters the lock once: the section that samples the state it returns", why, p)
 			}
 		}
 	}
